@@ -817,7 +817,9 @@ def r4_retry(program, rep):
                       for t, p_ in T.all_facts(T.cfg.loop_head[id(w)])]
             f = [x for x in [_dict_emptiness((t, p_), UNL[1].var)
                              for t, p_ in T.all_facts(rn)]
-                 if x not in before]
+                 if x not in before and x[0][0] not in ("and", "or")]
+            # (the loop's own exit condition - not (A and B) - is a fact
+            # there too; what is counted are the tests made after the loop)
             okr = len(args) == 1 and args[0][0] == "mu" and \
                 args[0][1].var == UNL[1].var and any(
                     (("cmp", "Eq", a_, b_), False) in f
@@ -848,7 +850,7 @@ def r4_retry(program, rep):
                   for t, p_ in T.all_facts(T.cfg.loop_head[id(w)])]
         f = [x for x in [_dict_emptiness((t, p_), UNL[1].var)
                          for t, p_ in T.all_facts(sn)]
-             if x not in before]
+             if x not in before and x[0][0] not in ("and", "or")]
         empty_known = UNL_after is not None and any(
             (("cmp", "Eq", a_, b_), True) in f
             for a_, b_ in ((plain(UNL_after), EMPTY),
